@@ -33,7 +33,7 @@ def adversarial(pool):
     return [
         ('null', ['null']), ('true', ['bool', True]), ('zero', interp.vflt(0.0)), ('negzero', interp.vflt(-0.0)), ('izero', interp.vint(0)),
         ('one', interp.vflt(1.0)), ('neg8', interp.vflt(-8.0)), ('half', interp.vflt(0.5)), ('neghalf', interp.vflt(-0.5)), ('ten', interp.vflt(10.0)),
-        ('e1000', interp.vflt(1000.0)), ('big', interp.vflt(1e308)), ('tiny', interp.vflt(5e-324)), ('inf', ['flt', 'inf']), ('ninf', ['flt', '-inf']), ('nan', ['flt', 'nan']),
+        ('e1000', interp.vflt(1000.0)), ('e20', interp.vflt(1e20)), ('ne21', interp.vflt(-1e21)), ('i63', interp.vint(2 ** 63)), ('big', interp.vflt(1e308)), ('tiny', interp.vflt(5e-324)), ('inf', ['flt', 'inf']), ('ninf', ['flt', '-inf']), ('nan', ['flt', 'nan']),
         ('i3', interp.vint(3)), ('ineg', interp.vint(-7)), ('huge', interp.vint(10 ** 400)), ('hugeneg', interp.vint(-(10 ** 400))),
         ('digits', interp.vint(10 ** 5000)), ('s', ['str', 'ab']), ('empty', ['str', '']),
         ('d1', ['date', str(63_842_000_000_000_000)]), ('dmin', ['date', '0']), ('dmax', ['date', str(315_537_897_599_999_999)]),
